@@ -489,7 +489,8 @@ Proof.
       apply N.leb_le in Ec. repeat split; try apply Hi; try exact Ha; try congruence. intros _. lia. }
     apply N.leb_gt in Ec.
     destruct (tread (r_t r) (rcap - r_end r)) as [[got eof] t'] eqn:Et.
-    destruct (tread_spec _ _ ltac:(lia) _ _ _ Et) as (Hs & Hg & Hne & Heof).
+    assert (Hcap : 0 < rcap - r_end r) by lia.
+    destruct (tread_spec _ _ Hcap _ _ _ Et) as (Hs & Hg & Hne & Heof).
     cbn zeta.
     assert (P1 : r_end r + nlen got = r_start r + nlen (r_win r) + nlen (rev_append got acc)).
     { rewrite rev_append_rev, nlen_app, nlen_rev. lia. }
@@ -503,11 +504,12 @@ Proof.
         now rewrite <- !app_assoc. }
       assert (Hp : pulled r (commit r2 (rev_append got acc))).
       { unfold pulled, commit, r2. cbn [r_recvd r_t]. rewrite <- Hs, nlen_app. lia. }
-      cbn [r_start r_end].
-      destruct (r_start r + n <=? r_end r + nlen got) eqn:E2; intros H; injection H as <- <-.
+      destruct (r_start r2 + n <=? r_end r2) eqn:E2; unfold r2 in E2; cbn [r_start r_end] in E2;
+        intros H; injection H as <- <-.
       * apply N.leb_le in E2. repeat split; try apply Hi; try assumption; try congruence.
-      * apply N.leb_gt in E2. repeat split; try apply Hi; try assumption; try congruence.
-        apply Heof. reflexivity.
+        intros _. exact E2.
+      * apply N.leb_gt in E2. repeat split; try apply Hi; try assumption; try congruence;
+          try (cbn; exact E2); try (apply Heof; reflexivity).
     + specialize (Hne eq_refl). intros H.
       apply IH in H; cbn [r_start r_end r_win r_recvd r_t]; [|exact P1|exact P2].
       cbn [r_start r_end r_win r_recvd r_t] in H.
@@ -973,7 +975,13 @@ Record GInv (g : ring) : Prop := {
   gi_toWclosed : g_toW_closed g = true -> g_main g = MDrain \/ g_main g = MClosed;
   gi_done : g_w g = WDone -> g_toW g = [] /\ g_toW_closed g = true;
   gi_fromWclosed : g_fromW_closed g = true -> g_w g = WDone;
-  gi_closed : g_main g = MClosed -> g_fromW_closed g = true
+  gi_closed : g_main g = MClosed -> g_fromW_closed g = true;
+  (* receives done by main vs flushes done by main *)
+  gi_acq0 : g_main g = MInit -> g_acq g = 0;
+  gi_fl0 : g_main g = MInit -> g_flushed g = [];
+  gi_acqF : g_main g = MFill -> g_acq g = S (length (g_flushed g));
+  gi_acqW : g_main g = MWait -> g_acq g = length (g_flushed g);
+  gi_hascur : g_main g = MFill -> g_cur g <> None
 }.
 
 Lemma GInv_init mem : GInv (g_init mem).
@@ -989,7 +997,7 @@ Ltac simp_g := cbn [g_main g_cur g_acq g_toW g_toW_closed g_fromW g_fromW_closed
 
 Lemma order_step g g' : GInv g -> rstep nb g g' -> order g' = rot nb (g_acq g').
 Proof.
-  intros [Ho Hl Hnc Hnd Htc Hd Hfc Hc] Hs. unfold order, cur_l in *.
+  intros [Ho Hl Hnc Hnd Htc Hd Hfc Hc Ha0 Hf0 HaF HaW Hhc] Hs. unfold order, cur_l in *.
   inversion Hs as [g0 k Hw Hk Hlen | g0 Hw | g0 b rest Hm Hf | g0 b c Hm Hcur | g0 b l Hm Hcur Hl0 Hlen
                   | g0 b rest Hm Hf | g0 b l rest Hw Ht | g0 b l Hw | g0 b Hw Hlen | g0 Hm
                   | g0 Hw Ht Htcl | g0 b rest Hm Hf | g0 Hm Hf Hfcl]; subst g0 g'; simp_g.
@@ -1044,7 +1052,7 @@ Qed.
 Lemma GInv_step g g' : GInv g -> rstep nb g g' -> GInv g'.
 Proof.
   intros Hi Hs. pose proof (order_step g g' Hi Hs) as Ho'. pose proof (log_step g g' Hi Hs) as Hl'.
-  destruct Hi as [Ho Hl Hnc Hnd Htc Hd Hfc Hc].
+  destruct Hi as [Ho Hl Hnc Hnd Htc Hd Hfc Hc Ha0 Hf0 HaF HaW Hhc].
   inversion Hs as [g0 k Hw Hk Hlen | g0 Hw | g0 b rest Hm Hf | g0 b c Hm Hcur | g0 b l Hm Hcur Hl0 Hlen
                   | g0 b rest Hm Hf | g0 b l rest Hw Ht | g0 b l Hw | g0 b Hw Hlen | g0 Hm
                   | g0 Hw Ht Htcl | g0 b rest Hm Hf | g0 Hm Hf Hfcl]; subst g0 g';
@@ -1058,6 +1066,9 @@ Proof.
   all: try (match goal with H : g_fromW_closed _ = true |- _ => specialize (Hfc H); discriminate end).
   all: try (match goal with H : g_w _ = WDone |- _ =>
               let Hx := fresh in destruct (Hd H) as (_ & Hx); destruct (Htc Hx); discriminate end).
+  all: try (rewrite ?app_length; cbn [length];
+            try rewrite (Ha0 eq_refl); try rewrite (Hf0 eq_refl);
+            try rewrite (HaF eq_refl); try rewrite (HaW eq_refl); cbn [length]; lia).
 Qed.
 
 (* --- what the invariant gives in every reachable state (all interleavings) *)
@@ -1196,4 +1207,186 @@ Proof.
   eapply reach_step in R; [|eapply R_w_done; cbn; reflexivity]. cbn in R.
   eapply reach_step in R; [|eapply R_drain_done; cbn; reflexivity]. cbn in R.
   eexists. split; [exact R|]. split; reflexivity.
+Qed.
+
+(* ============ F. the functional sender model and the ring system agree ====== *)
+
+(* --- ring side: which buffer every Flush sends *)
+
+Theorem ring_main_has_buffer nb mem0 g : reachable nb mem0 g -> g_main g = MFill ->
+  exists b, g_cur g = Some b.
+Proof.
+  intros Hr Hm. pose proof (gi_hascur nb g (reachable_GInv nb _ _ Hr) Hm) as H.
+  destruct (g_cur g) as [b|]; [now exists b|congruence].
+Qed.
+
+(* in every reachable state, between two Flushes, main's write buffer is buffer
+   (number of Flushes done so far) mod nb *)
+Theorem ring_flush_buffer nb mem0 g b : reachable nb mem0 g -> g_main g = MFill -> g_cur g = Some b ->
+  b = length (g_flushed g) mod nb.
+Proof.
+  intros Hr Hm Hc. destruct (ring_rotation nb mem0 g b Hr Hm Hc) as (_ & ->).
+  rewrite (gi_acqF nb g (reachable_GInv nb _ _ Hr) Hm). f_equal. lia.
+Qed.
+
+(* --- functional side: buffer identities of the sender model *)
+
+Section SenderRing.
+Variables (nbuf wcap : N).
+Hypothesis nbuf_pos : (0 < nbuf)%N.
+
+Definition ids (k : nat) : list N := map (fun i => (N.of_nat i mod nbuf)%N) (seq 0 k).
+
+Record CInv (s : sender) : Prop := {
+  ci_cur : s_cur s = (nlen (s_chunks s) mod nbuf)%N;
+  ci_ids : map fst (s_chunks s) = ids (length (s_chunks s))
+}.
+
+(* anything that Flush, appending to the buffer and the flag updates preserve
+   is preserved by every op *)
+Lemma step_preserves (P : sender -> Prop) :
+  (forall s, P s -> P (flush_buf nbuf s)) ->
+  (forall bs s, P s -> P (append_buf bs s)) ->
+  (forall s c e, P s -> P (mkS (s_cur s) (s_buf s) (s_chunks s) (s_sent s) (s_flushed s) c e)) ->
+  forall s o, P s -> P (step nbuf wcap s o).
+Proof.
+  intros Hf Ha Hflag.
+  assert (Hput : forall k bs s, P s -> P (put nbuf wcap k bs s)).
+  { intros k bs s Hs. unfold put. apply Ha. destruct (wcap <? wpos s + k)%N; auto. }
+  assert (Hdl : forall fuel d s, P s -> P (data_loop nbuf wcap fuel d s)).
+  { induction fuel as [|fuel IH]; intros d s Hs; destruct d as [|x d']; cbn [data_loop]; auto.
+    - unfold set_err. now apply Hflag.
+    - apply IH, Ha. destruct (wcap <=? wpos s)%N; auto. }
+  assert (Hfold : forall l s, P s -> P (fold_left (fun s v => send_u32 nbuf wcap v s) l s)).
+  { induction l as [|v l IH]; intros s Hs; cbn; auto. apply IH. now apply Hput. }
+  intros s o Hs. unfold step. destruct (s_closed s || s_err s); [unfold set_err; now apply Hflag|].
+  destruct o; try (now apply Hput); try (apply Hdl; now apply Hput); auto.
+  - apply Hfold. now apply Hput.
+  - unfold close_conn. apply Hflag. auto.
+Qed.
+
+Lemma CInv_run ops : CInv (run_sender nbuf wcap ops).
+Proof.
+  assert (Hstep : forall s o, CInv s -> CInv (step nbuf wcap s o)).
+  { apply step_preserves.
+    - intros s [H1 H2]. unfold flush_buf. destruct (0 <? wpos s)%N; [|split; assumption].
+      split; cbn [s_cur s_chunks].
+      + rewrite H1, nlen_app. change (nlen [(s_cur s, s_buf s)]) with 1%N.
+        apply N.add_mod_idemp_l. lia.
+      + rewrite map_app, app_length, H2. cbn [map fst length]. rewrite Nat.add_1_r.
+        unfold ids. rewrite seq_S, map_app. cbn [map]. f_equal. f_equal. rewrite H1. reflexivity.
+    - intros bs s [H1 H2]. split; assumption.
+    - intros s c e [H1 H2]. split; assumption. }
+  unfold run_sender. assert (H : forall ops s, CInv s -> CInv (fold_left (step nbuf wcap) ops s)).
+  { induction ops0 as [|o ops0 IH]; intros s Hs; cbn; auto. }
+  apply H. split; [|reflexivity].
+  change (0 = 0 mod nbuf)%N. symmetry. apply N.mod_0_l. lia.
+Qed.
+
+(* --- the two models agree.  Take ANY reachable state of the ring system (any
+   interleaving of main and writer) in which main is between two Flushes and
+   has flushed the chunks the functional sender computes for [ops].  Then the
+   buffer main holds is the one the functional model names ([s_cur], i.e. its
+   '(cur+1) mod numBuffers' is what the channels deliver), the i-th chunk of
+   the functional model lives in buffer i mod numBuffers — the buffer the ring
+   system's main held at its i-th Flush (ring_flush_buffer) —, and the
+   conn.Write calls so far are a prefix of the functional model's chunks. *)
+Theorem sender_ring_agree ops mem0 g :
+  let s := run_sender nbuf wcap ops in
+  reachable (N.to_nat nbuf) mem0 g -> g_main g = MFill ->
+  g_flushed g = wire_chunks s ->
+  g_cur g = Some (N.to_nat (s_cur s)) /\
+  map fst (s_chunks s) = ids (length (s_chunks s)) /\
+  (exists rest, wire_chunks s = g_written g ++ rest).
+Proof.
+  intros s Hr Hm Hfl. destruct (CInv_run ops) as [H1 H2]. fold s in H1, H2.
+  split; [|split; [exact H2|]].
+  - destruct (ring_main_has_buffer _ _ _ Hr Hm) as (b & Hb). rewrite Hb. f_equal.
+    rewrite (ring_flush_buffer _ _ _ _ Hr Hm Hb), Hfl, H1.
+    unfold wire_chunks. rewrite map_length. unfold nlen.
+    rewrite N2Nat.inj_mod, Nat2N.id. reflexivity.
+  - rewrite <- Hfl. apply (ring_written_prefix _ _ _ Hr).
+Qed.
+
+End SenderRing.
+
+(* --- and such ring executions exist for every chunk list (so for every op
+   sequence): the schedule in which the writer handles each chunk at once *)
+
+Lemma rot_cons nb a : 0 < nb -> rot nb a = (a mod nb) :: tl (rot nb a).
+Proof. destruct nb as [|m]; [lia|]. intros _. unfold rot. cbn [seq map tl]. f_equal. f_equal. lia. Qed.
+
+Lemma upd_same mem b c : upd mem b c b = c.
+Proof. unfold upd. now rewrite Nat.eqb_refl. Qed.
+
+Definition canon (nb : nat) (mem : nat -> list N) (cs : list (list N)) : ring :=
+  mkG MFill (Some (length cs mod nb)) (S (length cs)) [] false (tl (rot nb (length cs))) false
+      WIdle mem [] cs cs.
+
+Ltac simp_r R := cbn [g_main g_cur g_acq g_toW g_toW_closed g_fromW g_fromW_closed g_w g_mem g_dropped
+                      g_flushed g_written] in R.
+
+Lemma ring_alloc_reach nb mem0 : forall k, k <= nb ->
+  reachable nb mem0 (mkG MInit None 0 [] false (seq 0 k) false (WAlloc k) mem0 [] [] []).
+Proof.
+  induction k as [|k IH]; intros Hk; [apply reach_init|].
+  specialize (IH ltac:(lia)). eapply reach_step in IH; [|eapply R_alloc with (k := k); cbn; try reflexivity; try lia].
+  2:{ rewrite seq_length. lia. }
+  simp_r IH. rewrite seq_S. exact IH.
+Qed.
+
+Lemma canon_start nb mem0 : 0 < nb -> reachable nb mem0 (canon nb mem0 []).
+Proof.
+  intros Hnb. pose proof (ring_alloc_reach nb mem0 nb (le_n _)) as R.
+  eapply reach_step in R; [|eapply R_alloc_done; reflexivity]. simp_r R.
+  rewrite <- (rot_0 nb), (rot_cons nb 0 Hnb) in R.
+  eapply reach_step in R; [|eapply R_init; reflexivity]. simp_r R. exact R.
+Qed.
+
+Lemma canon_step nb mem0 mem cs c : 0 < nb -> c <> [] ->
+  reachable nb mem0 (canon nb mem cs) ->
+  reachable nb mem0 (canon nb (upd mem (length cs mod nb) c) (cs ++ [c])).
+Proof.
+  intros Hnb Hc R. unfold canon in R. set (b := length cs mod nb) in *.
+  eapply reach_step in R; [|eapply R_fill with (c := c); reflexivity]. simp_r R.
+  eapply reach_step in R; [|eapply R_flush_send with (l := length c); cbn; try reflexivity; try lia].
+  2:{ destruct c; [congruence|cbn; lia]. }
+  simp_r R. rewrite upd_same, firstn_all in R. cbn [app] in R.
+  eapply reach_step in R; [|eapply R_w_take; reflexivity]. simp_r R.
+  eapply reach_step in R; [|eapply R_w_write; reflexivity]. simp_r R. rewrite upd_same, firstn_all in R.
+  eapply reach_step in R; [|eapply R_w_return; cbn; try reflexivity].
+  2:{ pose proof (f_equal (@length nat) (rot_cons nb (length cs) Hnb)) as Hl. rewrite rot_length in Hl.
+      cbn [length] in Hl. lia. }
+  simp_r R.
+  assert (Hrot : tl (rot nb (length cs)) ++ [b] = rot nb (S (length cs))).
+  { symmetry. apply rot_shift. apply rot_cons, Hnb. }
+  rewrite Hrot, (rot_cons nb (S (length cs)) Hnb) in R.
+  eapply reach_step in R; [|eapply R_flush_recv; reflexivity]. simp_r R.
+  unfold canon. rewrite app_length. cbn [length]. rewrite Nat.add_1_r. exact R.
+Qed.
+
+Theorem ring_can_flush nb mem0 cs : 0 < nb -> Forall (fun c => c <> []) cs ->
+  exists g, reachable nb mem0 g /\ g_main g = MFill /\ g_flushed g = cs /\ g_written g = cs.
+Proof.
+  intros Hnb Hcs.
+  assert (H : exists mem, reachable nb mem0 (canon nb mem cs)).
+  { induction cs as [|c cs IH] using rev_ind; [exists mem0; now apply canon_start|].
+    apply Forall_app in Hcs. destruct Hcs as (Hcs & Hc). inversion Hc as [|? ? Hc' _]; subst.
+    destruct (IH Hcs) as (mem & R). eexists. apply canon_step; eassumption. }
+  destruct H as (mem & R). eexists. split; [exact R|]. cbn. auto.
+Qed.
+
+(* for every op sequence there is an execution of the ring system whose main
+   thread flushes exactly the chunks of the functional sender model (and in
+   which the writer has already written them) *)
+Theorem sender_ring_exists nbuf wcap ops mem0 : (0 < nbuf)%N -> (16 <= wcap)%N ->
+  exists g, reachable (N.to_nat nbuf) mem0 g /\ g_main g = MFill /\
+            g_flushed g = wire_chunks (run_sender nbuf wcap ops) /\
+            g_written g = wire_chunks (run_sender nbuf wcap ops).
+Proof.
+  intros Hn Hw. apply ring_can_flush; [lia|].
+  pose proof (sender_counters nbuf wcap ltac:(lia) Hw ops) as (_ & _ & H). cbn zeta in H.
+  unfold wire_chunks. apply Forall_forall. intros c Hc. apply in_map_iff in Hc.
+  destruct Hc as ((b & c') & <- & Hin). rewrite Forall_forall in H. specialize (H _ Hin). cbn in *.
+  intros ->. cbn in H. lia.
 Qed.
